@@ -376,6 +376,17 @@ def check_loop_and_exit_shapes(ctx: Ctx):
             cost_atoms = [a for a in at if "max_cost" in a and a != "max_cost is not None"]
             okp = "max_cost is not None" in at and len(at) == 2 and len(cost_atoms) == 1 and cost_atoms[0].startswith("max_cost < ") and len(pr.body) == 1 and isinstance(pr.body[0], ast.Continue) and not pr.orelse
             ctx.ob("C11-O2", "R1 STATUS-GUARD", f, f"{name}: a popped node is left unexpanded for its cost exactly when a limit is given and its cost is above the limit", okp, f"`if {ast.unparse(pr.test)}` -> {ast.unparse(pr.body[0])[:30]}: any other reading of the limit prunes nodes inside it, and targets within max_cost come back INFEASIBLE", node=pr)
+    # the budget counts expanded nodes, not heap pops: dijkstra_edges hands dijkstra the budget n_nodes + 1 on exactly
+    # that reading (superseded heap entries are popped too, and there can be many more of them than nodes)
+    for mod, name in (("dijkstra", "dijkstra"), ("a_star", "astar")):
+        f = ctx.func(mod, name)
+        cfg = cfg_of(f.node)
+        gv_ = GuardView(cfg)
+        incs = [n for n in own_nodes(f.node) if isinstance(n, ast.AugAssign) and ast.unparse(n.target) == "iterations"]
+        ctx.floor(f"iteration counter updates in {name}", len(incs), 1)
+        for inc in incs:
+            at = gv_.guard_atoms(cfg.node_of(inc), stable_only=False)
+            ctx.ob("C11-O2", "R2 BUDGET-EXIT", f, f"{name}: the iteration counter advances once per expanded node (after the already-closed test)", any(a.endswith("not in closed") for a in at), f"{sorted(a for a in at if 'closed' in a or 'heap' in a)}: counted per pop, stale entries use up a budget that callers size by the number of nodes, and a reachable target comes back as MAX_ITER", node=inc)
     bf = ctx.func("bellman_ford", "bellman_ford")
     bcfg = cfg_of(bf.node)
     bgv = GuardView(bcfg)
@@ -583,6 +594,16 @@ def _v_fw_diag_after_edges(tree):
     g.body.insert(ed[0], d)
 
 
+def _v_dijkstra_counts_pops(tree):
+    g = M.find_func(tree, "dijkstra")
+    inc = [n for n in ast.walk(g) if isinstance(n, ast.AugAssign) and M.src_is(n.target, "iterations")]
+    wl = [n for n in ast.walk(g) if isinstance(n, ast.While)]
+    if not inc or not wl:
+        raise M.Skip("counter not found")
+    wl[0].body.remove(inc[0])
+    wl[0].body.insert(1, inc[0])
+
+
 def _v_bfs_goal_truthiness(tree):
     g = M.find_func(tree, "bfs")
     M.replace_stmt(g, lambda s: isinstance(s, ast.Assign) and M.src_is(s.targets[0], "is_goal"), M.stmts("is_goal = goal if callable(goal) else (lambda s: s == goal) if goal else None"))
@@ -648,5 +669,6 @@ VARIANTS = [
     M.Variant("floyd_warshall zeroes the diagonal after reading the edges (seed C11-I)", FW, _v_fw_diag_after_edges, "C11-O5"),
     M.Variant("bfs without a goal labels the partial visited set OPTIMAL after a budget exit (original defect)", BS, _v_bfs_partial_set_optimal, "C11-O2"),
     M.Variant("bfs reads a falsy goal state (node 0) as 'no goal' (seed C12-L)", BS, _v_bfs_goal_truthiness, "C11-"),
+    M.Variant("dijkstra counts every heap pop, stale entries included, against the budget (seed C11-N)", DJ, _v_dijkstra_counts_pops, "C11-O2"),
     M.Variant("twin: floyd_warshall i/j loops swapped", FW, _t_fw_swap_ij, None),
 ]
